@@ -313,7 +313,7 @@ Proof.
     destruct (find_child x ch) as [c0|] eqn:FC; [|discriminate].
     assert (Hin : In c0 ch) by (unfold find_child in FC; apply find_some in FC; tauto).
     destruct (IH c0 nd H) as [A B]. split; intros X.
-    + apply A. rewrite tree_quiet_dir in X. apply andb_true_iff in X as [_ X]. rewrite forallb_forall in X. apply X. exact Hin.
+    + apply A. rewrite tree_quiet_dir in X. rewrite forallb_forall in X. apply X. exact Hin.
     + apply B. rewrite gi_readable_dir in X. apply andb_true_iff in X as [_ X]. rewrite forallb_forall in X. apply X. exact Hin.
 Qed.
 
